@@ -2,7 +2,7 @@
    arbitrary [vops V] (whatever numpy returns); the executable instance is
    binary64 = Python float (PrimFloat), evaluated by vm_compute. *)
 From Coq Require Import ZArith List Bool.
-From Coq Require Import PrimFloat Uint63.
+From Coq Require Import PrimFloat Uint63 FloatOps.
 Import ListNotations.
 
 Record vops (V : Type) := {
@@ -14,11 +14,11 @@ Record vops (V : Type) := {
   vmul : V -> V -> V;
   vdiv : V -> V -> V;
   vofZ : Z -> V;              (* int -> float conversion *)
-  vlit : float -> V           (* float literal in the source *)
+  vlit : Z -> Z -> V          (* float literal m * 2^e in the source (exact for every binary64) *)
 }.
 Arguments vltb {V} _ _ _. Arguments vleb {V} _ _ _. Arguments veqb {V} _ _ _.
 Arguments vadd {V} _ _ _. Arguments vsub {V} _ _ _. Arguments vmul {V} _ _ _.
-Arguments vdiv {V} _ _ _. Arguments vofZ {V} _ _. Arguments vlit {V} _ _.
+Arguments vdiv {V} _ _ _. Arguments vofZ {V} _ _. Arguments vlit {V} _ _ _.
 
 (* exact for |z| < 2^53, which covers every count the searches convert *)
 Definition float_of_Z (z : Z) : float :=
@@ -31,7 +31,7 @@ Definition float_of_Z (z : Z) : float :=
 Definition FloatOps : vops float := {|
   vltb := PrimFloat.ltb; vleb := PrimFloat.leb; veqb := PrimFloat.eqb;
   vadd := PrimFloat.add; vsub := PrimFloat.sub; vmul := PrimFloat.mul; vdiv := PrimFloat.div;
-  vofZ := float_of_Z; vlit := fun x => x |}.
+  vofZ := float_of_Z; vlit := fun m e => Z.ldexp (float_of_Z m) e |}.
 
 Definition is_none {A} (o : option A) : bool := match o with None => true | _ => false end.
 Definition is_some {A} (o : option A) : bool := match o with None => false | _ => true end.
